@@ -24,7 +24,8 @@ for p in props:
     note = n.get("note", "Trusted: " + "; ".join(m.TRUSTED) + ". Assumed: " + "; ".join(m.ASSUMPTIONS))
     if tie:
         tech += (" + source tie by translation: tools_rs2v.py regenerates Gallina definitions from the current Rust text of the "
-                 "word-level helpers / thin Uint wrappers in this property's files on every run and Properties/GenTie.v re-proves them equal to the model")
+                 "word-level helpers, limb-slice loop kernels, small-division and Montgomery kernels and thin Uint wrappers in this "
+                 "property's files on every run and Properties/GenTie.v re-proves them equal to the model")
         note += ("; tools_rs2v.py (Rust-subset to Gallina translator, trusted) and coq/Gen/Prim.v for the functions listed in evidence coverage.source_tie")
     checks.append({
         "property_id": pid,
@@ -54,7 +55,7 @@ man = {
                  "kind_free_text": "Coq 8.16 theorems over a hand-written Gallina model; Rust harness (debug+release) vs model and executable spec evaluated by vm_compute inside coqc"}],
     "checks": checks,
     "not_applicable": na,
-    "notes": "See DESIGN.md and FRAMEWORK.md. ./check <id> decides one property; known_findings.jsonl lists recorded findings (20 repaired defects, none open).",
+    "notes": "See DESIGN.md and FRAMEWORK.md. ./check <id> decides one property; known_findings.jsonl lists recorded findings (21 repaired defects, none open).",
 }
 json.dump(man, open(os.path.join(here, "MANIFEST.json"), "w"), indent=1)
 print("claimed:", sorted(claimed))
